@@ -342,7 +342,18 @@ Definition check_unit (st : bool) (evs : list ev) (o : list obs) : codes :=
             | _, _ => false
             end
       then [14] else [])
-  ++ (if impl_terminal_ok h0 None evs o then [] else [15]).
+  ++ (if impl_terminal_ok h0 None evs o then [] else [15])
+  (* every history ends with a wait for the delayed notifications (poll, cap 8 s): one that was
+     spawned and never delivered may be dropped as long as the last one received shows the state
+     the hub answers; otherwise the application is left with an older state for good *)
+  ++ (if Nat.eqb (length (filter (fun x => match x with ORepl true => true | _ => false end) o))
+               (length (filter (fun e => match e with EDeliver _ => true | _ => false end) evs))
+      then []
+      else match last_obs_ans o, last_obs_note_state o with
+           | Some a, Some n => if N.eqb a n then [] else [16]
+           | Some a, None => if N.eqb a ConnectionStateNone then [] else [16]
+           | None, _ => []
+           end).
 
 (* system level: deliver everything that is pending, oldest first *)
 Fixpoint flush (n : nat) (h : hub) : hub :=
